@@ -7,7 +7,8 @@ From Coq Require Import NArith ZArith List.
 From CB Require Import Contract.CcCodec Contract.CcTypes.
 From CB Require Import Contract.SchemaJson Contract.SchemaJsonProofs Contract.SchemaJsonConverse Contract.SchemaJsonContract
   Contract.CcSchemaCodec Contract.CcSchemaCodecProofs Contract.CcSchemaCodecFuel
-  Contract.SchemaJsonLeb Contract.CcSchemaNew Contract.Base64 Contract.Base64Proofs Contract.SchemaJsonContractMore.
+  Contract.SchemaJsonLeb Contract.CcSchemaNew Contract.Base64 Contract.Base64Proofs Contract.SchemaJsonContractMore
+  Contract.SchemaJsonLenBound.
 Import ListNotations.
 Local Open Scope N_scope.
 
@@ -444,3 +445,33 @@ Example contract_side_rust_types_nonvacuous :
   = Some [1; 0; 0; 0; 7; 254; 255; 255; 255].
 Proof. vm_compute. split; reflexivity. Qed.
 Print Assumptions contract_side_rust_types_nonvacuous.
+
+(** Length prefix ([write_bytes_for_length_of_size]): a String / ByteList / List / Set / Map whose length does not
+    fit the size length (2^8, 2^16, 2^32, 2^64) is an error of from_json, never bytes with a truncated length;
+    when accepted, the prefix is the little-endian length. *)
+Theorem from_json_length_must_fit : forall (L : leaves) s,
+  (forall x, sl_bound s <= N.of_nat (length x) -> from_json L (TString s) (JStr x) = None) /\
+  (forall x b, hex_decode x = Some b -> sl_bound s <= N.of_nat (length b) -> from_json L (TByteList s) (JStr x) = None) /\
+  (forall e vs, sl_bound s <= N.of_nat (length vs) -> from_json L (TList s e) (JArr vs) = None) /\
+  (forall e vs, sl_bound s <= N.of_nat (length vs) -> from_json L (TSet s e) (JArr vs) = None) /\
+  (forall k v es, sl_bound s <= N.of_nat (length es) -> from_json L (TMap s k v) (JArr es) = None).
+Proof.
+  exact (fun L s => conj (from_json_string_too_long L s) (conj (from_json_bytelist_too_long L s)
+          (conj (from_json_list_too_long L s) (conj (from_json_set_too_long L s) (from_json_map_too_long L s))))).
+Qed.
+Print Assumptions from_json_length_must_fit.
+
+Theorem from_json_length_prefix : forall (L : leaves) s,
+  (forall x b, from_json L (TString s) (JStr x) = Some b ->
+     b = le (sl_bytes s) (N.of_nat (length x)) ++ x /\ N.of_nat (length x) < sl_bound s) /\
+  (forall e vs b, from_json L (TList s e) (JArr vs) = Some b ->
+     (exists p, b = le (sl_bytes s) (N.of_nat (length vs)) ++ p) /\ N.of_nat (length vs) < sl_bound s).
+Proof. exact (fun L s => conj (from_json_string_prefix L s) (from_json_list_prefix L s)). Qed.
+Print Assumptions from_json_length_prefix.
+
+Example from_json_length_must_fit_nonvacuous :
+  sl_bound SL8 = 256 /\ sl_bound SL16 = 65536 /\
+  from_json stub_leaves (TList SL8 TU8) (JArr (repeat (JNum 7%Z) 255)) <> None /\
+  from_json stub_leaves (TList SL8 TU8) (JArr (repeat (JNum 7%Z) 256)) = None.
+Proof. vm_compute. repeat split; discriminate. Qed.
+Print Assumptions from_json_length_must_fit_nonvacuous.
